@@ -282,6 +282,8 @@ class Workers:
         self.oracle_time = 0.0
         self.oracle_ok = False
         self.dead = []          # requests on which the Go worker died / hung
+        self.hang_budget = 10   # restarts after a `hang` for the whole run; then the rest stays `skipped`
+        self.skipped = 0
 
     def build(self, res):
         ok, log, exe = vlib.build_harness("llrp", self.pid, ["codec_test.go"])
@@ -349,6 +351,10 @@ class Workers:
             for attempt in range(25):
                 if "skipped" not in o:
                     break
+                if self.hang_budget <= 0:
+                    self.skipped += o.count("skipped")
+                    break
+                self.hang_budget -= 1
                 k = o.index("skipped")
                 rest = self._go_one(sh[k:], "_s%d_r%d" % (i, attempt), timeout)
                 if rest is None:
@@ -441,6 +447,9 @@ def evaluate(L, W, cases, pid, use_oracle=True):
         st, ghex, gtree, ghex2 = split_rt(g_rt)
         o = obs[i]
         o["go"] = st
+        if st == "skipped" or g_2 == "skipped":
+            o["go"] = "skipped"
+            continue
         if st == "bad" or g_2.startswith("bad"):
             F(Finding("harness-bad-request:" + nm, "the Go worker rejected a generated tree: %s / %s" % (g_rt[:200], g_2[:200]), False))
             continue
@@ -532,7 +541,7 @@ def evaluate(L, W, cases, pid, use_oracle=True):
         for (i, h), a in zip(need_dec, ans):
             cs = cases[i]
             nm = cs["name"]
-            if a == "ok " + cs["tree"]:
+            if a == "ok " + cs["tree"] or a == "skipped":
                 continue
             path = _diff_path(L, cs, a[3:]) if a.startswith("ok ") else a.split(" ")[0]
             findings[i].append(Finding(
@@ -798,7 +807,8 @@ def run(pid, tier, seed, replay, title_assumptions):
     loc = {}
     try:
         loc = localise_all(L, W, [(sig, lst[0][0]) for sig, lst in by_sig.items()
-                                  if not sig.startswith(("harness-bad", "instantiate"))], pid, use_oracle=have_oracle)
+                                  if not sig.startswith(("harness-bad", "instantiate")) and not sig.endswith((":hang", ":died"))],
+                           pid, use_oracle=have_oracle)
     except Exception as e:
         res.notes.append("localisation failed: %r" % (e,))
     reports = collections.OrderedDict()     # final signature -> [what, witness case, original case, found, count, seen-as]
@@ -811,8 +821,8 @@ def run(pid, tier, seed, replay, title_assumptions):
         else:
             reports[f2.sig] = [f2.what, wit, cs, f2.found, len(lst), [sig]]
     for k, (fsig, r) in enumerate(reports.items()):
-        if k >= 12 or fsig.startswith(("harness-bad", "instantiate")):
-            continue
+        if k >= 12 or fsig.startswith(("harness-bad", "instantiate")) or fsig.endswith((":hang", ":died")):
+            continue        # (a hanging witness costs a watchdog period per candidate: reported unshrunk)
         try:
             small = shrink(L, W, r[1], fsig, pid, use_oracle=have_oracle)
             if small is not r[1]:
@@ -832,6 +842,8 @@ def run(pid, tier, seed, replay, title_assumptions):
     t_shrink = time.time() - t0
     for r in W.dead[:3]:
         res.notes.append("Go worker died on: " + r[:300])
+    if W.skipped:
+        res.notes.append("%d request(s) were not run: the worker hung more than 10 times (each hang costs a process)" % W.skipped)
 
     # ---- evidence
     judged = [cs for cs in cases if cs["wf"]]
@@ -870,7 +882,8 @@ def run(pid, tier, seed, replay, title_assumptions):
             go_behaviour=dict(collections.Counter(o.get("outside", "?") for _, o in outside)),
             model_behaviour=dict(collections.Counter(o.get("oracle", "?") for _, o in outside)),
         ),
-        traces_validated_against_impl=len(cases),
+        traces_validated_against_impl=sum(1 for o in obs if o.get("go") not in (None, "skipped")),
+        skipped_after_hangs=sum(1 for o in obs if o.get("go") == "skipped"),
         oracle_compared=sum(1 for o in obs if o.get("oracle") == "ok"),
         bytes_equal_to_reference=sum(1 for cs, o in zip(cases, obs) if cs["wf"] and o.get("oracle") == "ok" and o.get("go") == "ok" and "bytes_differ" not in o),
         trusted_base=res.assumptions,
